@@ -327,3 +327,42 @@ def binding_expressions_keep_focus(t0: str, t1: str, t2: str, t3: str, ci: int) 
     here = item.tag
     run = lambda key: L(T3[key].evaluate(XPathContext(doc, item=item)))   # noqa: E731
     return run('let_focus') == [here, na, 2] and run('for_focus') == ([here] if na else []) and run('let_focus_twice') == [here, here]
+
+
+# --- added after round-3 seeded changes: a map constructor used as a function item is re-evaluated; prefixed binding variables ------------
+
+T3.update(parse_all({'map_fn': 'for-each((1, 2), map{1: $a, 2: $b})', 'map_fn_filter': 'filter((1, 2, 3), map{1: $a gt $b, 2: true(), 3: $a lt $b})'}))
+P31NS = P31.__class__(namespaces={'p': 'urn:p'})
+T4 = parse_all({'for_p': '(for $p:x in ($a, $b) return $p:x + 1, $p:x)', 'let_p': '(let $p:x := $a return $p:x, $p:x)',
+                'some_p': '((some $p:x in ($a, $b) satisfies $p:x = $a), $p:x)', 'fn_p': '(function($p:x) { $p:x * 2 }($b), $p:x)'}, parser=P31NS)
+
+
+@ob(budget=120, bound='all integer values; history A, B, A of one token whose map constructor is applied as a function item (for-each, filter)',
+    funcs=['elementpath/xpath_tokens/maps.py:XPathMap.__call__', 'elementpath/xpath_tokens/maps.py:XPathMap._evaluate'])
+def map_constructor_as_function_repeatable(a: int, b: int, a2: int, b2: int) -> bool:
+    """
+    post: _
+    """
+    out = []
+    for x, y in ((a, b), (a2, b2), (a, b)):
+        r1, ok1 = _run(T3['map_fn'], {'a': x, 'b': y})
+        r2, ok2 = _run(T3['map_fn_filter'], {'a': x, 'b': y})
+        if r1 != [x, y] or r2 != [k for k, keep in ((1, x > y), (2, True), (3, x < y)) if keep] or not ok1 or not ok2:
+            return False
+        out.append((r1, r2))
+    return out[0] == out[2]
+
+
+@ob(budget=120, bound='all integer values: binding variables with a prefixed name ($p:x) while the caller supplies the same QName in expanded '
+                      'form ({urn:p}x): the inner binding shadows it inside, the caller value is seen outside and is unchanged',
+    funcs=['elementpath/xpath_tokens/tokens.py:VariableToken.evaluate', O2 + ':select__for_expression'])
+def prefixed_binding_shadows_outer(a: int, b: int, k: int) -> bool:
+    """
+    post: _
+    """
+    v = {'{urn:p}x': k, 'a': a, 'b': b}
+    r1, ok1 = _run(T4['for_p'], v)
+    r2, ok2 = _run(T4['let_p'], v)
+    r3, ok3 = _run(T4['some_p'], v)
+    r4, ok4 = _run(T4['fn_p'], v)
+    return r1 == [a + 1, b + 1, k] and r2 == [a, k] and r3 == [True, k] and r4 == [b * 2, k] and ok1 and ok2 and ok3 and ok4
